@@ -857,8 +857,8 @@ Qed.
 
 Lemma mk_base_wf b x p : mk_base b x = Ok p -> wf p.
 Proof.
-  destruct x as [d w inv|d w inv|d w inv]; cbn [mk_base]; unfold mk_sim, mk_single, mk_diff, base_refs;
-    rewrite ?map_length, ?seq_length.
+  destruct x as [d w inv0|d w inv0|d w inv0]; cbn [mk_base]; generalize (norm_inv w inv0); intros inv;
+    unfold mk_sim, mk_single, mk_diff, base_refs; rewrite ?map_length, ?seq_length.
   - destruct (Nat.eqb_spec (length inv) w); [|discriminate]. intros H; inversion H; subst.
     unfold wf; cbn. rewrite map_length, seq_length. auto.
   - destruct (Nat.eqb_spec (length inv) w); [|discriminate]. intros H; inversion H; subst.
